@@ -406,7 +406,7 @@ def run(r):
         t_mark[0] = now
     r.regen_tables(["C15_SETTERS", "C15_TEMPLATE_CONFIG", "C15_INSERT_ARMS", "C15_GET_ORDER", "C15_REMOVE_CLEAR", "C15_STATE_ID", "C15_CLONE_DERIVES",
                     "C15_THREAD_LOCALS", "C15_DROP_GUARDS", "C15_POOLS", "C15_HANDLE_REGISTRY", "C15_INSERT_ARM_PATTERNS",
-                    "C15_HIDDEN_STATE"])
+                    "C15_HIDDEN_STATE", "C15_MEMO_MAP"])
     lap("regen_tables")
     r.lean_prove("MJ.Props.C15", "MJ/Audit/C15.lean", extra_targets=["drive_c15"])
     lap("lean_build_and_audit")
